@@ -55,3 +55,8 @@ From PV Require Import Base.NumF Base.NumFOrd.
 Definition C05_get_relation_is_cdom_float := C05_get_relation_is_cdom Fn fin Fn_ord.
 Definition C05_slot_rule_float := C05_slot_rule Fn fin Fn_ord.
 Print Assumptions C05_slot_rule_float.
+
+(* ... and on all binary64 values but NaN (infinite objective values included) *)
+Definition C05_get_relation_is_cdom_float_nn := C05_get_relation_is_cdom Fn nonnanf Fn_ord_nn.
+Definition C05_slot_rule_float_nn := C05_slot_rule Fn nonnanf Fn_ord_nn.
+Print Assumptions C05_slot_rule_float_nn.
